@@ -165,7 +165,36 @@ def spec_line(c):
 
 
 def prepare(c):
-    return {"schema": c["schema"], "value": c["value"], "via": c.get("via", "literal")}
+    r = {"schema": c["schema"], "value": c["value"], "via": c.get("via", "literal")}
+    if "layers" in c:
+        r["layers"] = c["layers"]
+    return r
+
+
+PATTERNS3 = [(1, 0, 0), (0, 1, 0), (0, 0, 1), (1, 0, 1), (1, 1, 0), (0, 1, 1), (1, 1, 1)]   # (bottom, middle, top)
+
+
+def split_layers(rng, value, depth=1, force=None):
+    """three objects whose merge (bottom, middle, top) is `value`: every key goes to a non-empty subset of the layers
+    (all copies equal), object values present in all three layers may be split recursively"""
+    layers = [{}, {}, {}]
+    for j, (k, v) in enumerate(value.items()):
+        pat = force[j % len(force)] if force else rng.choice(PATTERNS3)
+        if isinstance(v, dict) and v and depth > 0 and pat == (1, 1, 1) and rng.chance(1, 2):
+            subs = split_layers(rng, v, depth - 1)
+            for i in range(3):
+                layers[i][k] = subs[i]
+        else:
+            for i in range(3):
+                if pat[i]:
+                    layers[i][k] = v
+    return layers
+
+
+def mk_merged(rng, schema, value, force=None):
+    c = mk(schema, value, "merged")
+    c["layers"] = split_layers(rng, value, 1, force)
+    return c
 
 
 # ------------------------------------------------------------------------------------------------
@@ -584,6 +613,33 @@ def gen(rng, tier):
             sc, val = wrap(s, v, defs)
         cases.append(mk(sc, val))
 
+    # the value reaches the gate by REFERENCE to an object merged from three layers (two imports and the environment): keys
+    # in every subset of the layers, in particular top-and-bottom-but-not-middle; property counts at the boundary
+    gm3 = rng.fork("merged")
+    for n in (1, 2, 3, 4, 5):
+        obj = {("k%d" % i): (i if i % 2 else "s%d" % i) for i in range(n)}
+        for kw in ("minProperties", "maxProperties"):
+            for lim in (n - 1, n, n + 1):
+                if lim < 0:
+                    continue
+                for force in ([(1, 0, 1)], [(1, 0, 1), (0, 1, 0)], [(1, 1, 1)], None, None):
+                    cases.append(mk_merged(gm3, {"type": "object", kw: lim}, obj, force))
+                    sc, val = wrap({"type": "object", kw: lim}, obj, {})
+                    c = mk(sc, val, "merged")
+                    inner = split_layers(gm3, obj, 0, force)
+                    c["layers"] = [{"v": inner[0]}, {"v": inner[1]}, {"v": inner[2]}]
+                    cases.append(c)
+    for _ in range(3000 if thorough else 250):
+        names = g.make_defs()
+        sch = g.schema(2, tuple(names))
+        if not isinstance(sch, dict):
+            continue
+        v = g.value_for(dict(sch, type="object")) if True else None
+        v = fix_numbers_literal(v)
+        if not isinstance(v, dict) or not v:
+            continue
+        sc, val = direct(sch, v, dict(g.defs))
+        cases.append(mk_merged(gm3, sc, val))
     # numeric keywords in COMBINATION: multipleOf with each kind of bound, both sides of the bound, quotient on the other
     # side of the bound than the value (an in-place division would show)
     nb = rng.fork("numcombo")
@@ -749,7 +805,10 @@ def shrink_value(v):
 
 
 def describe(c):
-    return {"schema": c["schema"], "value": c["value"], "via": c.get("via", "literal")}
+    d = {"schema": c["schema"], "value": c["value"], "via": c.get("via", "literal")}
+    if "layers" in c:
+        d["layers"] = c["layers"]
+    return d
 
 
 def distribution(cases, r):
